@@ -208,3 +208,4 @@ fn buffer_write_create_destroy() {
     unsafe { diplomat_buffer_write_destroy(w) };
     // leak / double free / invalid free are CBMC checks
 }
+
